@@ -51,6 +51,12 @@ claim("C09",
       STATIC_NOTE + "Not decided: collision resistance.",
       "DESIGN.md §4 C09")
 
+claim("C20",
+      "nil-dereference dominance rule for key-material pointers in all 42 start functions/closures, guard inventory (frozen keys) over start closures, round.NewSession, the handler constructors, CanSign/ValidThreshold and PreSignature.Validate, typed-nil boxing rule",
+      "Decides for every start function and every invalid-parameter class named by the property that the refusing check exists and gates session creation: nil or incomplete key material, empty message, participant-list / self-membership / threshold validation in NewSession, signer-subset validation, presignature validation, StartFunc errors surfaced by the constructors; and that a missing shareholder cannot slip through as a typed-nil interface. Right level: 'refused at start' is the presence and placement of validations on every path to the first-round literal.",
+      STATIC_NOTE + "Not decided: arithmetic consistency of key material that passes the validators (C15/C02).",
+      "DESIGN.md §4 C20")
+
 for p, why in {
     "C01": "not built yet", "C02": "not built yet", "C03": "not built yet", "C04": "not built yet", "C05": "not built yet",
     "C06": "not built yet", "C07": "not built yet", "C08": "not built yet", "C09": "not built yet", "C10": "not built yet",
